@@ -251,7 +251,10 @@ class C03(core.PropBase):
                         if site[-1] == "name" and "hostRequirements" in site:
                             continue
                         set_at(d, site, text)
-                    yield {"kind": "job", "doc": d, "decode": True, "tag": "same-text"}
+                    c = {"kind": "job", "doc": d, "decode": True, "tag": "same-text"}
+                    if rng.random() < 0.5:
+                        c["as_fs"] = text
+                    yield c
         # 2c. crowded scopes: 16-48 job parameters (so 32-100 symbols are visible everywhere) and references that are
         #     out of scope there — one-component names ('Frame'), names without the prefix, misspellings; whatever the
         #     size of the scope, each offending reference is named
@@ -360,6 +363,21 @@ class C03(core.PropBase):
     # ---------------- implementation
     def impl(self, case):
         doc = case["doc"]
+        if case.get("as_fs"):
+            # the caller assembled the template from parts: every occurrence of this text is ONE FormatString instance (a str)
+            from openjd.model._format_strings import FormatString
+            try:
+                inst = FormatString(case["as_fs"])
+            except Exception:  # noqa: BLE001
+                inst = None
+            if inst is not None:
+                def swap(x):
+                    if isinstance(x, dict):
+                        return {k: swap(v) for k, v in x.items()}
+                    if isinstance(x, list):
+                        return [swap(v) for v in x]
+                    return inst if isinstance(x, str) and x == case["as_fs"] else x
+                doc = swap(doc)
         cls = JobTemplate if case["kind"] == "job" else EnvironmentTemplate
         before = G.deep(doc)
         try:
